@@ -8,6 +8,7 @@ import OcVerif.Driver.Timeouts
 import OcVerif.Driver.RtWait
 import OcVerif.Driver.Co
 import OcVerif.Driver.Local
+import OcVerif.Driver.Beans
 /-!
 `ocmodel`: reads history lines `<comp> <id> : <body> => <implementation outputs>` on stdin,
 runs the Lean model on `<body>`, compares with the implementation's outputs and evaluates the
@@ -29,6 +30,7 @@ def dispatch (comp : String) : Option (String → String → Verdict) :=
   | "rtwait" => some Driver.RtWait.drive
   | "co" => some Driver.Co.drive
   | "local" => some Driver.Local.drive
+  | "beans" => some Driver.Beans.drive
   | _ => none
 
 def handle (line : String) : String :=
